@@ -242,3 +242,9 @@ def run(ctx):
     rule_d(ctx)
     rule_e(ctx)
     rule_f(ctx, E)
+    # BaseCorrection.__call__ visits range(image.time_num) slices: the series clause rests on Image keeping time_num = number of slices
+    from . import c02
+    from .common import shared
+
+    shared(ctx, "C10.c", c02.rule_c, why="the per-slice loop of the correction workflow runs over image.time_num")
+    shared(ctx, "C10.c", c02.rule_d, why="the per-slice loop of the correction workflow runs over image.time_num")
